@@ -778,3 +778,122 @@ Proof.
   apply (OInv_transport r r' HI); try (rewrite M; reflexivity).
   eapply PC_forward; [exact Hty|exact H|apply HI].
 Qed.
+
+(* a snapshot whose configuration keeps the window members a quorum *)
+Definition snapq (s : snapshot) : Prop :=
+  forall c' i, ConfChange.restore empty_tracker (s_cs s) = ROk (c', i) ->
+    incoming c' <> [] /\ Quorum.has_quorum (incoming c') (outgoing c') (l :: ids) = true.
+
+Lemma restore_follower_prs r s r' b :
+  r_state r = Follower -> restore r s = Ok (r', b) ->
+  (conf_of r' = conf_of r /\ t_votes (r_prs r') = t_votes (r_prs r)) \/
+  (t_votes (r_prs r') = [] /\
+   exists c' i, ConfChange.restore empty_tracker (s_cs s) = ROk (c', i) /\ conf_of r' = c').
+Proof.
+  intros Hf. unfold restore. intros H.
+  dtop H; [injection H as <- <-; left; split; reflexivity|].
+  rewrite Hf in H. cbn [role_eqb negb] in H.
+  dtop H; [injection H as <- <-; left; split; reflexivity|].
+  ib H mt Hmt.
+  dtop H; [ib H l' Hl; injection H as <- <-; left; split; reflexivity|].
+  ib H l' Hl.
+  destruct (ConfChange.restore empty_tracker (s_cs s)) as [[c' ids']|e] eqn:Er; [|discriminate].
+  ib H y Hy. destruct y as [r1 new_cs].
+  unfold post_conf_change in Hy.
+  match type of Hy with context [is_leader ?x] =>
+    assert (Hnl : is_leader x = false) by (unfold is_leader; cbn; rewrite Hf; reflexivity) end.
+  rewrite Hnl in Hy. rewrite andb_false_r in Hy. cbn [negb orb] in Hy. injection Hy as <- <-.
+  dtop H; [discriminate|]. dtop H; [|discriminate]. dtop H; [discriminate|]. injection H as <- <-.
+  right. split; [reflexivity|]. exists c', ids'. split; reflexivity.
+Qed.
+
+Lemma O_handle_heartbeat r m r' : OInv r -> handle_heartbeat r m = Ok r' -> OInv r'.
+Proof.
+  intros HI H. pose proof (handle_heartbeat_only _ _ _ H) as E.
+  assert (G : GQ PC o t r r') by (eapply (handle_heartbeat_GQ PC o t rtype); oargs; exact H).
+  eapply OInv_msgs_log; [exact HI|exact E|]. destruct G as [_ G]. apply G; apply HI.
+Qed.
+
+Lemma O_handle_append_entries r m r' : OInv r -> handle_append_entries r m = Ok r' -> OInv r'.
+Proof.
+  intros HI H. pose proof (handle_append_entries_only _ _ _ H) as E.
+  assert (G : GQ PC o t r r') by (eapply (handle_append_entries_GQ PC o t rtype); oargs; exact H).
+  eapply OInv_msgs_log; [exact HI|exact E|]. destruct G as [_ G]. apply G; apply HI.
+Qed.
+
+Lemma O_handle_snapshot r m r' :
+  OInv r -> r_state r = Follower -> snapq (m_snapshot m) ->
+  handle_snapshot r m = Ok r' -> OInv r'.
+Proof.
+  intros HI Hf Hsq H.
+  assert (G : GQ PC o t r r') by (eapply (handle_snapshot_GQ PC o t rtype); oargs; [exact Hf|exact H]).
+  unfold handle_snapshot in H. ib H y Hy. destruct y as [r1 ok].
+  pose proof (restore_follower_prs _ _ _ _ Hf Hy) as Hp.
+  assert (Hs1 : conf_of r' = conf_of r1 /\ t_votes (r_prs r') = t_votes (r_prs r1)).
+  { destruct ok; apply send_msgs_only in H; unfold msgs_only in H; rewrite H; split; reflexivity. }
+  destruct Hs1 as [S1 S2].
+  pose proof HI as (I1 & I2 & I3 & I4 & I5 & I6 & I7).
+  destruct G as [K G]. apply keeps_fields in K. destruct K as (K1 & K2 & K3 & K4 & K5).
+  apply cfg_fields in K5. destruct K5 as (C1 & C2 & _).
+  assert (F' : Forall PC (r_msgs r')) by (apply G; assumption).
+  destruct Hp as [[E1 E2]|(E2 & c' & i & Er & Ec)].
+  - apply (OInv_transport r r' HI); try assumption; congruence.
+  - unfold OInv, confq, votes_ok. rewrite C2, C1, K1, K3, S1, S2, Ec, E2.
+    repeat split; try assumption; try apply (Hsq c' i Er). discriminate.
+Qed.
+
+(* the response to a pool (pre-)vote request *)
+Lemma PC_vote_resp r m rej tm ci :
+  OInv r -> PC m -> vreq m ->
+  (rej = true -> tm <= t) -> (rej = false -> tm = m_term m) ->
+  PC (vote_resp r m (resp_type m) rej tm ci).
+Proof.
+  intros (I1 & I2 & _) (P1 & _ & _ & P4 & _) Hq Hr1 Hr2. destruct (P4 Hq) as [Hfrom _].
+  assert (Hv : vresp (vote_resp r m (resp_type m) rej tm ci)).
+  { unfold vresp, resp_type. cbn. destruct (m_type m =? MsgRequestVote); [left|right]; reflexivity. }
+  split.
+  { destruct rej; [left; cbn; apply Hr1; reflexivity|]. cbn. rewrite (Hr2 eq_refl).
+    destruct P1 as [P1|P1]; [left; exact P1|]. right.
+    unfold exempt in *. cbn. unfold resp_type.
+    destruct Hq as [E|E]; rewrite E in P1 |- *; [discriminate|reflexivity]. }
+  split; [destruct Hv as [E|E]; rewrite E; repeat split; discriminate|].
+  split; [intros _ _; cbn; rewrite I2; exact Ho|].
+  split; [intros [E|E]; destruct Hv as [E'|E']; rewrite E' in E; discriminate|].
+  intros _ C. cbn in C. contradiction.
+Qed.
+
+Lemma O_maybe_commit_by_vote r m r' : OInv r -> maybe_commit_by_vote r m = Ok r' -> OInv r'.
+Proof.
+  intros HI H. apply maybe_commit_by_vote_cases in H. destruct H as [E|(_ & l' & Hf)].
+  - apply (OInv_transport r r' HI); try (rewrite E; reflexivity). rewrite E. apply HI.
+  - assert (HI' : OInv (r <| r_log := l' |>)) by (apply (OInv_transport r _ HI); try reflexivity; apply HI).
+    eapply OInv_become_follower; [exact HI'|apply HI|exact Hf].
+Qed.
+
+Lemma O_vote_branch r m r' c :
+  OInv r -> PC m -> vreq m -> step_body r m = Ok (r', c) -> OInv r'.
+Proof.
+  intros HI Pm Hq H. apply step_body_vote in H; [|exact Hq].
+  destruct H as [_ [(G & Z & ->)|(G & Z & ci & Hci & Hm)]].
+  - assert (Px : PC (vote_resp r m (resp_type m) false (m_term m) (0, 0)))
+      by (apply PC_vote_resp; try assumption; [discriminate|reflexivity]).
+    pose proof (OInv_push _ _ HI Px) as HP.
+    destruct (m_type m =? MsgRequestVote); [|exact HP].
+    apply (OInv_transport _ _ HP); try reflexivity. apply HP.
+  - eapply O_maybe_commit_by_vote; [|exact Hm]. apply OInv_push; [exact HI|].
+    apply PC_vote_resp; try assumption; [intros _; apply HI|discriminate].
+Qed.
+
+Lemma O_low_term_reply r m r' :
+  OInv r -> PC m -> low_term_reply r m = Ok r' -> OInv r'.
+Proof.
+  intros HI Pm H. unfold low_term_reply in H. dtop H.
+  - eapply OInv_send_plain; [exact HI|exact H|reflexivity|left; reflexivity].
+  - dtop H; [|injection H as <-; exact HI]. apply N.eqb_eq in Heqb0.
+    apply send_vote_resp in H; [|reflexivity|right; reflexivity]. destruct H as [_ ->].
+    assert (Hq : vreq m) by (right; exact Heqb0).
+    pose proof (PC_vote_resp r m true (r_term r) (0, 0) HI Pm Hq) as Px.
+    unfold resp_type in Px. rewrite Heqb0 in Px.
+    change (MsgRequestPreVote =? MsgRequestVote) with false in Px. cbv iota in Px.
+    apply (OInv_push r); [exact HI|]. apply Px; [intros _; apply HI|discriminate].
+Qed.
